@@ -233,6 +233,31 @@ class CholeskyBandContract:
                             note("flag:non_finite", "NaN entry not flagged", dict(bw=bw, n=n))
                     except Exception as e:
                         note("flag:non_finite", "raised %s: %s" % (type(e).__name__, e), dict(bw=bw, n=n))
+                    # singular: M M^T with an exactly-zero pivot (in the last column for odd rep)
+                    if bw >= 2:
+                        Mi = np.zeros((n, n))
+                        for i in range(n):
+                            for j in range(max(0, i - bw + 1), i + 1):
+                                Mi[i, j] = float(rng.randint(1, 3))
+                        zp = n - 1 if rep % 2 else rng.randint(1, n - 1)
+                        Mi[zp, zp] = 0.0
+                        As = Mi @ Mi.T
+                        sing = np.zeros((bw, n + bw))
+                        for d in range(bw):
+                            for j in range(n - d):
+                                sing[d, j] = As[j + d, j]
+                        count += 1
+                        try:
+                            st, M = cholesky_band(sing.copy())
+                            if isinstance(st, (int, np.integer)) and st == -1:
+                                Ld = np.zeros((n, n))
+                                for d in range(bw):
+                                    for j in range(n - d):
+                                        Ld[j + d, j] = M[d, j]
+                                if not np.all(np.isfinite(M)) or not np.allclose(Ld @ Ld.T, As, rtol=1e-6, atol=1e-8):
+                                    note("flag:singular_not_reported_as_success", "singular matrix (zero pivot in column %d) accepted with a non-finite or wrong factor" % zp, dict(bw=int(bw), n=int(n), zero_pivot=int(zp)))
+                        except Exception as e:
+                            note("flag:singular_not_reported_as_success", "raised %s: %s" % (type(e).__name__, e), dict(bw=int(bw), n=int(n), zero_pivot=int(zp)))
                     # positive diagonal but not positive definite
                     if bw >= 2 and "flag:indefinite_reported_by_status" not in active:
                         ind = band.copy()
@@ -245,7 +270,7 @@ class CholeskyBandContract:
                         except Exception as e:
                             note("flag:indefinite_reported_by_status", "raised %s: %s" % (type(e).__name__, e), dict(bw=int(bw), n=int(n), seed=seed, rep=rep))
             res["paths"] = res["native_runs"] = count
-            for kd in ("spd:factor_and_solve", "flag:nonpositive_diagonal", "flag:non_finite", "flag:indefinite_reported_by_status"):
+            for kd in ("spd:factor_and_solve", "flag:nonpositive_diagonal", "flag:non_finite", "flag:indefinite_reported_by_status", "flag:singular_not_reported_as_success"):
                 b = fails.get(kd, [])
                 d = dict(name="cholesky_band_contract:" + kd, path=0, status="unsat" if not b else "sat", secs=0.0, backend="native-numeric", size=0,
                          note="" if not b else b[0][0])
@@ -281,7 +306,7 @@ class FitFailureStatus:
     prop = "C09"
     target = "pydl.pydlutils.bspline:bspline.fit, bspline.maskpoints"
     level = "B"
-    SCEN = ["too_few_breakpoints", "data_gap_wider_than_spacing", "empty_segment_zero_weights", "few_good_points"]
+    SCEN = ["too_few_breakpoints", "data_gap_wider_than_spacing", "empty_segment_zero_weights", "few_good_points", "second_gap_after_masking"]
 
     def _run(self, scen):
         from pydl.pydlutils.bspline import bspline
@@ -303,6 +328,22 @@ class FitFailureStatus:
                 w[(x > 3) & (x < 6)] = 0.0
                 s = bspline(x, nord=3, bkspace=1.0)
                 return s.fit(x, np.cos(x), w)
+            if scen == "second_gap_after_masking":
+                # multi-step: the object already has masked breakpoints from a first gap, then data with a second gap further right
+                xa = np.concatenate([np.linspace(0, 4, 60), np.linspace(7, 20, 200)])
+                s = bspline(np.linspace(0, 20, 300), nord=4, bkspace=0.5)
+                st1, _ = s.fit(xa, np.sin(xa), np.ones(xa.size))
+                st2, _ = s.fit(xa, np.sin(xa), np.ones(xa.size))
+                masked1 = np.nonzero(~s.mask)[0]
+                xb = np.concatenate([np.linspace(0, 4, 60), np.linspace(7, 11, 60), np.linspace(14, 20, 90)])
+                st3, _ = s.fit(xb, np.sin(xb), np.ones(xb.size))
+                st4, yfit = s.fit(xb, np.sin(xb), np.ones(xb.size))
+                newly = np.setdiff1d(np.nonzero(~s.mask)[0], masked1)
+                bk = s.breakpoints[newly]
+                ok_region = newly.size > 0 and np.all((bk > 10.0) & (bk < 15.0))
+                if (st1, st2, st3, st4) != (-1, 0, -1, 0) or not ok_region:
+                    raise AssertionError("statuses %s, newly masked breakpoints at %s (second gap is 11..14)" % ((st1, st2, st3, st4), np.round(bk, 2)))
+                return st4, yfit
             if scen == "few_good_points":
                 x = np.sort(np.random.RandomState(1).uniform(0, 10, 31))
                 w = np.zeros(31)
